@@ -112,6 +112,40 @@ def names(spec: dict) -> dict[str, str]:
     return {"dest": dest, "dir": d, "target": os.path.join(d, STORE, stem + ".blob"), "alias": ALIAS}
 
 
+LINK_SHAPES = ("one", "chain2", "chain3", "abs", "dirlink", "dotdot")
+
+
+def link_layout(spec: dict, root: str) -> tuple[list[tuple[str, str]], str | None]:
+    """Symlink mode: the links that lead from the ``external_data`` name to the regular file, as
+    (relative path of the link, link text) in the order they are followed, and the relative path of
+    the last intermediate link (None when the name points at the file directly).  Link texts are
+    relative to the directory of the link unless the shape is ``abs``.
+
+    one      w.data -> store/w.blob
+    chain2   w.data -> hop1.data -> store/w.blob
+    chain3   w.data -> hop1.data -> store/hop2.lnk -> w.blob       (hops in two directories)
+    abs      w.data -> <root>/.../store/w.blob                      (absolute link text)
+    dirlink  w.data -> lstore/w.blob, lstore -> store               (symlinked parent directory)
+    dotdot   w.data -> store/../store/w.blob"""
+    nm = names(spec)
+    d, dest, target = nm["dir"], nm["dest"], nm["target"]
+    tb = os.path.basename(target)
+    shape = spec.get("link") or "one"
+    if shape == "chain2":
+        hop = os.path.join(d, "hop1.data")
+        return [(dest, "hop1.data"), (hop, os.path.join(STORE, tb))], hop
+    if shape == "chain3":
+        hop1, hop2 = os.path.join(d, "hop1.data"), os.path.join(d, STORE, "hop2.lnk")
+        return [(dest, "hop1.data"), (hop1, os.path.join(STORE, "hop2.lnk")), (hop2, tb)], hop2
+    if shape == "abs":
+        return [(dest, os.path.join(os.path.abspath(root), target))], None
+    if shape == "dirlink":
+        return [(os.path.join(d, "lstore"), STORE), (dest, os.path.join("lstore", tb))], None
+    if shape == "dotdot":
+        return [(dest, os.path.join(STORE, "..", STORE, tb))], None
+    return [(dest, os.path.join(STORE, tb))], None
+
+
 def monitor() -> F.LineMonitor:
     global _MON
     if _MON is None:
@@ -244,6 +278,17 @@ def gen_spec(rng, case: int) -> dict:
         # whether a destination shard name is pre-created is decided after the reference run
         spec["collide_kind"] = rng.choice(["none", "none", "file", "symlink", "dangling"])
         spec["collide_pick"] = rng.random()
+    # (drawn last: the draws above stay what they were for a given case)
+    # how the symlinked destination leads to its regular file: directly, through a chain of links,
+    # by an absolute text, through a symlinked directory or a text with '..' - and which name of the
+    # chain each destination-backed tensor reads through
+    spec["link"] = "one"
+    if mode == "symlink":
+        spec["link"] = rng.choice(["one", "chain2", "chain2", "chain3", "chain3", "abs", "dirlink", "dotdot"])
+        if spec["link"] in ("chain2", "chain3"):
+            for t in tensors:
+                if t["kind"] == "ext_dest":
+                    t["via"] = rng.choice(["direct", "hop", "target", "target"])
     return spec
 
 
@@ -306,8 +351,9 @@ def materialize(spec: dict, root: str) -> Scenario:
         os.mkdir(os.path.join(root, os.path.dirname(target)))
         with open(os.path.join(root, target), "wb") as f:
             f.write(old_dest)
-        # the link text is relative to the directory of the link
-        os.symlink(os.path.join(STORE, os.path.basename(target)), os.path.join(root, dest))
+        links, hop = link_layout(spec, root)
+        for rel, text in links:
+            os.symlink(text, os.path.join(root, rel))
         sc.dest_rel = target
     elif mode in ("plain", "readonly"):
         with open(os.path.join(root, dest), "wb") as f:
@@ -358,11 +404,12 @@ def materialize(spec: dict, root: str) -> Scenario:
                 location, backing, old = OTHER, OTHER, old_other
             else:
                 via = t.get("via", "direct")
-                location = {"direct": dest, "alias": ALIAS, "target": target}[via]
+                hop = link_layout(spec, root)[1] if mode == "symlink" else None
+                location = {"direct": dest, "alias": ALIAS, "target": target, "hop": hop or dest}[via]
                 backing, old = sc.dest_rel, old_dest
             tensor = ir.ExternalTensor(location, offset, length, ir_dt, shape=shape, name=name, base_dir=root)
             sc.ext.append({
-                "tensor": tensor, "name": name, "backing": backing,
+                "tensor": tensor, "name": name, "backing": backing, "loc": location,
                 "old": old[offset:offset + length],
                 "role": ("written" if length > spec["threshold"] else "loaded-first"),
                 "kind": kind,
@@ -430,7 +477,12 @@ def snapshot(root: str) -> dict[str, tuple]:
             rel = os.path.relpath(full, root)
             st = os.lstat(full)
             if stat.S_ISLNK(st.st_mode):
-                out[rel] = ("l", os.readlink(full))
+                text = os.readlink(full)
+                # absolute link texts name the run directory: comparable across runs
+                absroot = os.path.abspath(root)
+                if text == absroot or text.startswith(absroot + os.sep):
+                    text = "<root>" + text[len(absroot):]
+                out[rel] = ("l", text)
             elif stat.S_ISDIR(st.st_mode):
                 out[rel] = ("d",)
             else:
@@ -529,7 +581,8 @@ class Judge:
             f"{t['name']}[{_nbytes(t)}B{'/' + t['via'] if t.get('via') else ''}]" for t in s["tensors"]
         )
         return (
-            f"mode={s['mode']} dest={s.get('dest_family', 'short')}[{_brief(names(s)['dest'])}] sharded={s['sharded']} "
+            f"mode={s['mode']}{'/' + s['link'] if s['mode'] == 'symlink' and s.get('link') else ''} "
+            f"dest={s.get('dest_family', 'short')}[{_brief(names(s)['dest'])}] sharded={s['sharded']} "
             f"max_shard={s['max_shard']} collide={_brief(s['collide']) if s.get('collide') else None}"
             f"({s.get('collide_kind')}) workers={s['workers']} threshold={s['threshold']} callback={s['callback']} "
             f"opaque_file={s['opaque']} tensors=[{tens}]"
@@ -558,7 +611,9 @@ class Judge:
         ctx = self.ctx
         for e in sc.ext:
             t = e["tensor"]
-            was_replaced = replaced.get(e["backing"], False)
+            # "its backing file was actually replaced" is read off the name the tensor itself reads
+            # through (links followed): inode or content behind that name changed
+            was_replaced = replaced.get(e.get("loc") or e["backing"], False)
             valid = bool(t.valid())
             tag = f"{e['kind']}/{e['role']}"
             if not valid and not was_replaced:
@@ -668,7 +723,10 @@ class Judge:
         cleanup_fault = any(site in F.CLEANUP_SITES for (site, _k) in plan.faults)
         # 'late' is decided by the harness's own record of the real os.replace having returned
         # *before* the fault fired, never by what the code did after the fault
-        late = any(not before for (_s, _k, _how, before) in plan.fired) or (not plan.fired and plan.replaced > 0)
+        # (when no injected fault fired at all the exception is the save's own reaction to the scenario
+        # - a tensor whose mapping the client still holds cannot be released, a name is too long, ... -
+        # and WHERE the code lets it happen is the code's choice, not the harness's: judged strictly)
+        late = any(not before for (_s, _k, _how, before) in plan.fired)
         strict = not cleanup_fault and not late
         where = "exception"
         outcome = "n/a"
@@ -747,7 +805,8 @@ class Judge:
 
 def _before_ino(sc: Scenario) -> dict:
     out = {}
-    for rel in {e["backing"] for e in sc.ext} | ({sc.dest_rel} if sc.spec["mode"] != "absent" else set()):
+    for rel in ({e["backing"] for e in sc.ext} | {e["loc"] for e in sc.ext}
+                | ({sc.dest_rel} if sc.spec["mode"] != "absent" else set())):
         full = os.path.join(sc.root, rel)
         try:
             st = os.stat(full)
@@ -966,6 +1025,9 @@ def reference_and_recording(judge: Judge, spec: dict) -> tuple[Counter, int, lis
         judge.judge_exception(sc, s1, before, exc, rec_plan, fault_tag="no-fault", replay=replay)
     del sc
     shutil.rmtree(recdir, ignore_errors=True)
+    # --- the same save while the client holds live arrays of the model's external tensors ---------
+    for held in held_variants(spec):
+        run_held_case(judge, spec, held)
     return rec_plan.counts, events, trace
 
 
@@ -1012,6 +1074,55 @@ def run_exception_case(judge: Judge, spec: dict, faults: list) -> tuple[str, boo
     del exc, sc
     shutil.rmtree(rundir, ignore_errors=True)
     return outcome, fired, returned
+
+
+def held_variants(spec: dict) -> list[list]:
+    """Client state the save meets: the caller still holds a live array obtained from an external
+    tensor of the model (``tensor.numpy()`` / ``np.asarray(tensor)`` are views of the tensor's memory
+    map, so the map cannot be closed while they live).  Every external tensor alone, then all."""
+    ext = [t for t in spec["tensors"] if t["kind"] in ("ext_dest", "ext_other")]
+    out = [[[t["name"], ("numpy", "asarray")[i % 2]]] for i, t in enumerate(ext)]
+    if len(ext) > 1:
+        out.append([[t["name"], "numpy"] for t in ext])
+    return out
+
+
+def run_held_case(judge: Judge, spec: dict, held: list, faults: list | None = None) -> str:
+    """One in-process save while the client holds live arrays of the named external tensors (no
+    injected fault unless ``faults``); judged like every other run: a save that raises - the
+    exception comes from a tensor - must leave the destination, the directory and the tensors alone."""
+    ctx = judge.ctx
+    rundir = judge.fresh_dir()
+    sc = materialize(spec, rundir)
+    before = _before_ino(sc)
+    views, classes = [], []
+    for name, how in held:
+        e = next((e for e in sc.ext if e["name"] == name), None)
+        if e is None:
+            continue
+        views.append(e["tensor"].numpy() if how == "numpy" else np.asarray(e["tensor"]))
+        classes.append(f"{e['kind']}/{e['role']}")
+    plan = F.Plan(faults or [])
+    exc, _ = run_save(sc, plan, "off")
+    s1 = snapshot(rundir)
+    tag = "held-array(" + ",".join(sorted(set(classes))) + ")"
+    if faults:
+        tag += "+" + "+".join(_fault_tag(s_, k_, a_[0], not spec["sharded"]) for s_, k_, a_ in faults)
+    replay = {"kind": "exception", "spec": spec, "faults": list(faults or []), "held": held}
+    ctx.count("held_array_cases|total")
+    for c in sorted(set(classes)):
+        ctx.count(f"held_array_cases|array of {c}")
+    if exc is None:
+        ctx.count("held_array_cases|save returned")
+        outcome = judge.judge_success(sc, s1, before, where="success", fault_tag=tag, replay=replay)
+    else:
+        ctx.count("held_array_cases|save raised")
+        ctx.count(f"held_array_cases|save raised|{type(exc).__name__}")
+        outcome = judge.judge_exception(sc, s1, before, exc, plan, fault_tag=tag, replay=replay)
+    ctx.count(f"held_array_outcome|save {'returned' if exc is None else 'raised'}|destination {outcome}")
+    del exc, views, sc
+    shutil.rmtree(rundir, ignore_errors=True)
+    return outcome
 
 
 def run_death_case(judge: Judge, spec: dict, death: list) -> tuple[str, int]:
@@ -1290,6 +1401,10 @@ def evaluate_replay(ctx_like, replay: dict, base: str) -> list[tuple[str, str, d
             judge.found = []
             run_death_case(judge, spec, replay["death"])
             return judge.found
+        if replay.get("held"):
+            judge.found = []
+            run_held_case(judge, spec, replay["held"], replay.get("faults") or None)
+            return judge.found
         if not replay.get("faults"):
             return found_in_recording
         judge.found = []
@@ -1324,10 +1439,26 @@ def shrink_witness(replay: dict, signature: str, base: str, max_tries: int = 60)
         if spec["mode"] not in ("plain",) and not spec["sharded"]:
             c = copy.deepcopy(cur)
             c["spec"]["mode"] = "plain"
+            c["spec"]["link"] = "one"
             for t in c["spec"]["tensors"]:
-                if t.get("via") == "target":
+                if t.get("via") in ("target", "hop"):
                     t["via"] = "direct"
             yield c
+        if spec["mode"] == "symlink" and (spec.get("link") or "one") != "one":
+            for shape in ("one", "chain2"):
+                if shape != spec["link"] and not (shape == "chain2" and spec["link"] != "chain3"):
+                    c = copy.deepcopy(cur)
+                    c["spec"]["link"] = shape
+                    if shape == "one":
+                        for t in c["spec"]["tensors"]:
+                            if t.get("via") == "hop":
+                                t["via"] = "direct"
+                    yield c
+        if len(cur.get("held") or []) > 1:
+            for j in range(len(cur["held"])):
+                c = copy.deepcopy(cur)
+                del c["held"][j]
+                yield c
         if len(cur.get("faults", [])) > 1:
             for j in range(len(cur["faults"])):
                 c = copy.deepcopy(cur)
@@ -1414,6 +1545,14 @@ def run(ctx) -> None:
             ctx.count("undisturbed_pass|scenarios|" + ("sharded" if spec["sharded"] else "single-file"))
             if spec["sharded"] and spec.get("collide"):
                 ctx.count("undisturbed_pass|scenarios|sharded|colliding shard name pre-exists")
+            if spec["mode"] == "symlink":
+                ctx.count(f"undisturbed_pass|scenarios|symlink|{spec.get('link') or 'one'}")
+                if spec.get("link") in ("chain2", "chain3") and not spec["sharded"]:
+                    ctx.count("undisturbed_pass|scenarios|symlink|chain of links, single file")
+                    if any(t["kind"] == "ext_dest" and t.get("via") == "target" and _nbytes(t) > spec["threshold"]
+                           for t in spec["tensors"]):
+                        ctx.count("undisturbed_pass|scenarios|symlink|chain of links, single file, "
+                                  "written tensor reads the final file by its own name")
             report(judge)
         # ---- pass 2: every fault position of as many scenarios as the budget allows --------------
         for case in ctx.case_ids():
@@ -1437,6 +1576,8 @@ def run(ctx) -> None:
                 ctx.count("scenarios_enumerated")
                 ctx.count("fault_positions_exercised", result["positions"])
                 ctx.count(f"scenarios|mode={spec['mode']}")
+                if spec["mode"] == "symlink":
+                    ctx.count(f"scenarios|symlink={spec.get('link') or 'one'}")
                 ctx.count(f"scenarios|dest-name={spec.get('dest_family', 'short')}")
                 ctx.count("scenarios|writer=" + ("parallel" if (spec["workers"] or 1) > 1 else "serial"))
                 ctx.count("scenarios|" + ("sharded" if spec["sharded"] else "single-file"))
@@ -1461,11 +1602,12 @@ def run(ctx) -> None:
 
 def _describe_replay(replay: dict) -> str:
     spec = replay["spec"]
-    tens = ", ".join(f"{t['kind']}[{_nbytes(t)}B]" for t in spec["tensors"])
-    return (f"mode={spec['mode']} dest={spec.get('dest_family', 'short')}[{len(names(spec)['dest'])} chars] "
+    tens = ", ".join(f"{t['kind']}[{_nbytes(t)}B{'/' + t['via'] if t.get('via') else ''}]" for t in spec["tensors"])
+    return (f"mode={spec['mode']}{'/' + spec['link'] if spec['mode'] == 'symlink' and spec.get('link') else ''} dest={spec.get('dest_family', 'short')}[{len(names(spec)['dest'])} chars] "
             f"sharded={spec['sharded']} workers={spec['workers']} threshold={spec['threshold']} "
             f"callback={spec['callback']} opaque_file={spec['opaque']} tensors=[{tens}] "
-            f"faults={replay.get('faults')} death={replay.get('death')}")
+            f"faults={replay.get('faults')} death={replay.get('death')}"
+            + (f" client holds arrays of {replay['held']}" if replay.get("held") else ""))
 
 
 def replay(replay_data, ctx) -> None:
